@@ -58,6 +58,28 @@ structure Chk where
   hd : Nat := 0
   deriving Repr, DecidableEq, Inhabited
 
+/-- The facts the guard set of CheckThreadProc:142-176 reads, one field per read.  They are inputs of the scheduler's
+    section (the harness records each of them from its OWN bookkeeping of what it configured / toggled, under the checker's
+    mutex — never from the code under test); how they combine into "skip" is the model's business. -/
+structure SkipIn where
+  /-- `GetHostService(checkable)` yields a service (:151-153), else a host -/
+  isService : Bool := false
+  /-- `checkable->IsReachable(DependencyCheckExecution)` (:143): no explicit Dependency with `disable_checks` has failed.  The
+      implicit service→host dependency does NOT count for this dependency type (checkable-dependency.cpp:200). -/
+  depOk : Bool := true
+  /-- `checkable->GetEnableActiveChecks()` -/
+  own : Bool := true
+  /-- `icingaApp->GetEnableHostChecks()` (:155) -/
+  hostChecks : Bool := true
+  /-- `icingaApp->GetEnableServiceChecks()` (:160) -/
+  svcChecks : Bool := true
+  /-- no check period, or inside it (:166-168) -/
+  inPeriod : Bool := true
+  deriving Repr, DecidableEq, Inhabited
+
+/-- :155 / :160 — the object's own flag and the global flag of ITS type (host checks for hosts, service checks for services) -/
+def SkipIn.enabled (i : SkipIn) : Bool := i.own && (if i.isService then i.svcChecks else i.hostChecks)
+
 namespace Chk
 
 /-- checkercomponent.cpp:304 `object->IsActive() && !object->IsPaused() && same_zone` -/
@@ -97,6 +119,9 @@ def force (x : Chk) : Chk := { x with forced := true }
 def skips (forced reach enabled inPeriod : Bool) : Bool :=
   !forced && !(reach && enabled && inPeriod)
 
+/-- the guard set applied to the recorded facts -/
+def skipsIn (forced : Bool) (i : SkipIn) : Bool := skips forced i.depOk i.enabled i.inPeriod
+
 /-- CheckThreadProc:133 + :196-217: erase from idle, insert into pending, clear force, dispatch a helper. -/
 def pick (x : Chk) : Chk :=
   { x with inIdle := false, inPending := true, forced := false, hq := x.hq + 1 }
@@ -105,8 +130,8 @@ def pick (x : Chk) : Chk :=
 def skip (x : Chk) : Chk := { x with inIdle := true, idleKey := x.nextCheck }
 
 /-- the scheduler's critical section on the chosen entry -/
-def sched (x : Chk) (reach enabled inPeriod : Bool) : Chk :=
-  if skips x.forced reach enabled inPeriod then x.skip else x.pick
+def sched (x : Chk) (i : SkipIn) : Chk :=
+  if skipsIn x.forced i then x.skip else x.pick
 
 /-- `Checkable::ExecuteCheck` test-and-set, checkable-check.cpp:580-592 -/
 def helperGuard (x : Chk) : Chk :=
@@ -130,8 +155,14 @@ def procExit (x : Chk) : Chk := { x with procs := x.procs - 1, pz := x.pz + 1, p
 /-- … and then hands the result to `ProcessCheckResult`, which resets the flag (checkable-check.cpp:103-106) -/
 def procResult (x : Chk) : Chk := { x with pz := x.pz - 1, running := false }
 
-/-- A result from elsewhere (passive / cluster) — outside the property's event alphabet (Q-C04). -/
-def passiveResult (x : Chk) : Chk := { x with running := false }
+/-- A passive result (process-check-result API action / external command: `active = false`) processed at any moment, also while
+    an execution is in progress.  Since fix 1c45f06 the block that clears `m_CheckRunning` at the top of `ProcessCheckResult`
+    runs only `if (!cr || cr->GetActive())` (checkable-check.cpp:106-114): a passive result leaves the flag alone. -/
+def passiveResult (x : Chk) : Chk := x
+
+/-- documentation only, NOT a transition of the model: what a passive result did before fix 1c45f06 (F-C04c) — it cleared the flag
+    like every other result -/
+def passiveResultPreFix (x : Chk) : Chk := { x with running := false }
 
 /-- ExecuteCheckHelper:253 (the counter itself is global) -/
 def helperDec (x : Chk) : Chk := { x with hr := x.hr - 1, hd := x.hd + 1 }
@@ -155,6 +186,12 @@ def slots (x : Chk) : Int := (x.hq + x.hx + x.procs : Nat)
 /-- command executions of this checkable that are running right now (command bodies and plugin processes) -/
 def execs (x : Chk) : Nat := x.hx + x.procs
 
+/-- `ExecuteCheckHelper` calls dispatched for this checkable that have not passed their final critical section yet -/
+def helpers (x : Chk) : Nat := x.hq + x.hx + x.hs + x.hr + x.hd
+
+/-- nothing of this checkable is in flight: no helper, no plugin process, no result on its way -/
+def settled (x : Chk) : Bool := x.helpers == 0 && x.procs == 0 && x.pz == 0
+
 end Chk
 
 /-- Global state: checkables `0 … n-1`, the pending-checks counter (checkable-check.cpp:29, an `int`) and
@@ -176,16 +213,14 @@ inductive Act where
   | setNextCheck (c : Nat) (v : Int)
   | nextCheckChanged (c : Nat)
   | force (c : Nat)
-  | sched (c : Nat) (now : Int) (reach enabled inPeriod : Bool)
+  | sched (c : Nat) (now : Int) (i : SkipIn)
   | helperGuard (c : Nat)
   | result (c : Nat)
   | spawn (c : Nat)
   | pluginInc (c : Nat)
   | procExit (c : Nat)
   | procResult (c : Nat)
-  /-- Q-C04: a passive or cluster-relayed result processed while an execution is in progress.  It is a legal event of
-      the code (ProcessCheckResult resets `m_CheckRunning` for every result, checkable-check.cpp:103-106) but outside the
-      property's event alphabet; `single_flight` excludes it and `…_counterexample_with_passive_result` shows why. -/
+  /-- a passive result is processed (F-C04c, fixed by 1c45f06: it no longer touches `m_CheckRunning`) -/
   | passiveResult (c : Nat)
   | helperDec (c : Nat)
   | helperFinish (c : Nat)
@@ -219,10 +254,10 @@ def step (s : St) : Act → Option St
   | .setNextCheck c v => if c < s.n then some (s.upd c ((s.chk c).setNextCheck v)) else none
   | .nextCheckChanged c => if c < s.n then some (s.upd c (s.chk c).nextCheckChanged) else none
   | .force c => if c < s.n then some (s.upd c (s.chk c).force) else none
-  | .sched c now r e p =>
+  | .sched c now i =>
     if schedEnabled s c now then
       let x := s.chk c
-      if Chk.skips x.forced r e p then some (s.upd c x.skip)
+      if Chk.skipsIn x.forced i then some (s.upd c x.skip)
       else some { s.upd c x.pick with counter := s.counter + 1 }     -- :217 IncreasePendingChecks
     else none
   | .helperGuard c => if c < s.n ∧ 0 < (s.chk c).hq then some (s.upd c (s.chk c).helperGuard) else none
